@@ -107,7 +107,7 @@ int main() {
         }
         std::cout << "{\"s\":" << U::Bytes(s) << ",\"ks\":" << kss << "],\"pre\":" << pre << "],\"res\":[";
         for (size_t j = 0; j < res.size(); ++j) std::cout << (j ? "," : "") << res[j];
-        std::cout << "],\"ub\":" << U::B(U::TakeReports() > 0) << "}" << std::endl;
+        std::cout << "],\"abort\":false,\"ub\":" << U::B(U::TakeReports() > 0) << "}" << std::endl;
     }
     return 0;
 }
